@@ -502,8 +502,19 @@ def basis_rule(ctx, d3):
     for p in ps:
         if p.raised or p.ret_node is None:
             continue
-        cs = [src(t) for t, taken in p.conds if taken and not isinstance(t, str)]
-        if "basis == 'wt'" in cs and any('tmo.Stream' in c for c in cs):
+        from ..pathcond import implied2 as _imp2b, resolved_conds as _rcb, implied
+        rcb = _rcb(p, keep=set(f.params))
+
+        def _basis_is(k, rcb=rcb):
+            return _imp2b(rcb, lambda t: isinstance(t, ast.Compare) and len(t.ops) == 1 and isinstance(t.ops[0], ast.Eq) and src(t.left) == f.params[1]
+                          and isinstance(t.comparators[0], ast.Constant) and t.comparators[0].value == k,
+                          lambda t: isinstance(t, ast.Compare) and len(t.ops) == 1 and isinstance(t.ops[0], ast.NotEq) and src(t.left) == f.params[1]
+                          and isinstance(t.comparators[0], ast.Constant) and t.comparators[0].value == k)
+        is_stream = implied(rcb, lambda t: isinstance(t, ast.Call) and src(t.func) in ('isinstance', 'isa') and len(t.args) == 2
+                            and src(t.args[0]) == f.params[0] and 'Stream' in src(t.args[1]) and 'Multi' not in src(t.args[1])) is True
+        wt_ = _basis_is('wt') is True
+        mol_ = _basis_is('mol') is True
+        if wt_ and is_stream:
             r = p.ret_node.value
             found += 1
             rt = p.tup.get('<ret>') or []
@@ -512,15 +523,16 @@ def basis_rule(ctx, d3):
                 d3.ok('as_material_array[wt]', 'returns (mass data copy, config, mass data view)', f, p.ret_node)
             else:
                 d3.fail('as_material_array[wt]', 'wt-route', 'weight basis does not route through a copy of the mass view with write-back target', f, p.ret_node)
-        if "basis == 'mol'" in cs and any('tmo.Stream' in c for c in cs):
+        if mol_ and is_stream:
             r = p.ret_node.value
             found += 1
             if isinstance(r, ast.Tuple) and src(r.elts[0]) == 'material._imol.data' and src(r.elts[2]) == 'None':
                 d3.ok('as_material_array[mol]', 'returns the molar data itself (in-place reaction)', f, p.ret_node)
             else:
                 d3.fail('as_material_array[mol]', 'mol-route', 'molar basis does not react the molar data in place', f, p.ret_node)
-    if found < 2:
-        raise AnalysisError('as_material_array: stream branches not found')
+    if found < 2 or not any(i_['construct'] == 'as_material_array[wt]' for i_ in d3.instances) \
+            or not any(i_['construct'] == 'as_material_array[mol]' for i_ in d3.instances):
+        raise AnalysisError('as_material_array: stream branches (mol and wt) not found')
     # every return: (values, config, original) -- either values IS the caller's object (reacted in place, nothing to write back) or it is a
     # fresh object and `original` names where the result must be written; a fresh object with original=None is a lost update
     mp = f.params[0]
